@@ -356,7 +356,7 @@ def main(tier, replay=None):
         "item / use all / selected name / use library.all / deferred constant + body in another file / entity + "
         "architecture in another file / entity, component and configuration instantiation / configuration / context "
         "declaration + reference / generic package + instance / same name different kind / mutual dependencies / "
-        "unused declarations and sensitivity-list lints / empty / broken text); a quarter of the histories are chain scenarios D <- U <- W <- X where D is what U is missing (use library.all / missing lib.pkg / package body / architecture or entity named in an instantiation, configuration in the chain) and the file of D is filled, emptied, restored, or a 3-unit file copied to a second file (all parked as duplicates) and the original emptied; histories of 1-8 (thorough 1-12) steps: "
+        "unused declarations and sensitivity-list lints / empty / broken text); a quarter of the histories are chain scenarios D <- U <- W <- X where D is what U is missing (use library.all / missing lib.pkg / package body / architecture or entity named in an instantiation, configuration in the chain) and the file of D is filled, emptied, restored, or a 3-unit file copied to a second file (all parked as duplicates) and the original emptied; also one user of the same unit name in two libraries (lib_b.pkg / lib_c.pkg, lib_b.ent(a1) / lib_c.ent(a1)) whose definitions come and go in either order, and `use lib.all` + entity lib.ent(rtl) with in-place edits that only move the architecture (shift steps: comment lines or a filler unit inserted above); histories of 1-8 (thorough 1-12) steps: "
         "replace, empty, restore, unmapped file via Source::inline, swap as two steps; after every step diagnostics "
         "(code, file, range, message, related as multiset) and find_all_entity_references of every file vs a freshly "
         "loaded Project; steps whose fresh world has a unit name in two files of one library are skipped, not removed; "
